@@ -507,6 +507,9 @@ impl Drop for Driver {
         for entry in cqueue {
             match entry.user_data() {
                 Self::CANCEL | Self::NOTIFY => {}
+                // Not the final completion of this op: the kernel still holds its
+                // reference, which is released below once the ring is closed.
+                _ if more(entry.flags()) => {}
                 key => {
                     self.in_flight.remove(&(key as usize));
                     drop(unsafe { ErasedKey::from_raw(key as _) });
